@@ -867,8 +867,7 @@ def m_indexed(wp, n, args, obj):
         return t
     sub = wp.tensor_of(args[1])
     node = look(args[1])
-    by_value_map = not (node.get('kind') == 'DeclRefExpr' and 'mem_t' in node.get('type', {}).get('qualType', '') + qual(node.get('type')))
-    ismem = re.search(r'tensor_mem_t|tensor_vector_storage_t', qual(look(args[1]).get('type')) + look(args[1]).get('type', {}).get('qualType', ''))
+    ismem = re.search(r'tensor_mem_t|tensor_vector_storage_t', qual(node.get('type')) + node.get('type', {}).get('qualType', ''))
     if ismem:
         # indexed(indices, tensor_mem_t&): resizes to exactly (indices.size(), dims[1..])   (proved: indexed_mem<R>)
         for k, t in enumerate(want):
